@@ -84,6 +84,19 @@ print(e, f, g)
     except* ValueError as eg:
         return eg
 ''',
+    'cyclic-attribute-assignments': '''class Node:
+    def relink(self):
+        self.peer = self.peer
+        self.left = self.right
+        self.right = self.left
+        self.right = "leaf"
+        self.up = self.up.up
+        return self.peer.name, self.left.upper
+n = Node()
+n.peer.name
+n.left.upper
+n.up.up
+''',
     'type-comments-in-odd-places': '''vals = [1,  # type: int
         2]
 # type: (int) -> str
